@@ -183,6 +183,9 @@ func checkMain(args []string) {
 			continue // verified where it is inlined
 		}
 		for _, f := range fns {
+			if f.TypeParams().Len() > 0 && len(f.TypeArgs()) == 0 {
+				continue // generic body: its instances are verified
+			}
 			rep := eng.VerifyFunc(f)
 			reports = append(reports, rep)
 			funcsUnder = append(funcsUnder, rep.Func)
